@@ -16,8 +16,8 @@ Notation W := (sink_write cnt er).
 
 Ltac bytes_eq :=
   cbn [go_sprint flat_map go_fval_text];
-  rewrite ?app_nil_r, ?go_itoa_is_model, ?join_lines_cons, ?join_lines_app, ?zb_app, <- ?app_assoc;
-  reflexivity.
+  repeat first [rewrite join_lines_app | rewrite join_lines_cons | rewrite zb_app | rewrite app_nil_r | rewrite go_itoa_is_model];
+  rewrite <- ?app_assoc; reflexivity.
 
 Lemma normal_edits_loop_ok fuel : forall rest pre gas w lpos rpos,
   (length rest < gas)%nat -> Forall (edit_fuel fuel) rest ->
